@@ -21,4 +21,13 @@ def next_channel (live : Nat → Bool) (fuel counter : Nat) : Option (Nat × Nat
     let counter := ((counter + 1) % 16777216)
     some (counter, chanid)
 
+/-- every call site of `_next_channel` in class Transport: (calling method, inside a `self.lock` region) -/
+def next_channel_sites : List (String × Bool) := [
+  ("open_channel", true),
+  ("_parse_channel_open", true),
+  ("_parse_channel_open", true),
+  ("_parse_channel_open", true),
+  ("_parse_channel_open", true)
+]
+
 end PV.Generated.C23
